@@ -71,7 +71,10 @@ CHECKS = {
         "level_note": "Trusted: bitcoin.Hash160, protocol.Serialize for building action outputs. Not judged (ambiguous in the statement): 20-byte pushes whose hash160 is subscribed, implied data of OP_1..16, mutated envelopes while contract subscription is on.",
         "runs": [
             {"pkg": "internal/spynode", "test": "TestVerif_C08"},
+            {"pkg": "internal/spynode", "test": "TestVerif_C08Conc", "race": True},
+            {"pkg": "internal/spynode", "test": "TestVerif_C08Address"},
         ],
+        "race_attrib": [r"spynode\.\(\*Node\)\.(Subscribe|Unsubscribe|IsRelevant)"],
     },
     "C15": {
         "level": "exploration",
@@ -201,6 +204,7 @@ CHECKS = {
             {"pkg": "internal/spynode", "test": "TestVerif_C12L1"},
             {"pkg": "internal/spynode", "test": "TestVerif_C12L1", "race": True, "tiers": ["thorough"]},
             {"pkg": "internal/spynode", "test": "TestVerif_C12Delay"},
+            {"pkg": "internal/spynode", "test": "TestVerif_C12Tx"},
         ],
         "race_attrib": [r"^github\.com/tokenized/spynode/internal/(handlers|state|storage|spynode)\."],
     },
